@@ -2,6 +2,7 @@
 """Prints the markdown table of seeded/<id>/meta.json results (appended to DESIGN.md by tools/mkdesign.sh)."""
 import json, glob, os
 rows = []
+first_run = json.load(open(os.path.join(os.path.dirname(__file__), "..", "seeded", "FIRST_RUN.json")))
 for f in sorted(glob.glob(os.path.join(os.path.dirname(__file__), "..", "seeded", "*", "meta.json"))):
     m = json.load(open(f))
     oc = m.get("our_check", {})
@@ -11,7 +12,7 @@ for f in sorted(glob.glob(os.path.join(os.path.dirname(__file__), "..", "seeded"
         if "key=" in l:
             key = l.split("key=")[1].split()[0]
             break
-    note = m.get("note", "")
+    note = first_run.get(m["id"], "")
     first = (m.get("needs_to_manifest", "").strip().splitlines() or [""])
     title = next((l.strip("# ").strip() for l in first if l.strip()), "")[:110]
     rows.append("| %s | %s | %s | %s | %s%s |" % (m["id"], m["property"], "yes" if m.get("confirmed") else "NO", title.replace("|", "/"), verdict + (" (`%s`)" % key if key and key != "-" else ""), (" — " + note) if note else ""))
